@@ -62,7 +62,9 @@ fn prepare(case: &J) -> Result<Setup, String> {
     Ok(Setup { tables, stmt, files, joined, tag, aggregate })
 }
 
-pub fn gen_case(rng: &mut Rng, kind: &str) -> J {
+pub fn gen_case(rng: &mut Rng, kind: &str) -> J { gen_case_opts(rng, kind, false) }
+
+pub fn gen_case_opts(rng: &mut Rng, kind: &str, big_joined: bool) -> J {
     let js = rng.chance(2, 3);
     let t = std_table(rng, "t", js, false);
     let dc = DataCfg::random(rng, t.schema.cols.len(), false);
@@ -70,14 +72,15 @@ pub fn gen_case(rng: &mut Rng, kind: &str) -> J {
     let mut files: Vec<Vec<String>> = (0..nfiles).map(|_| { let n = rng.below(9); std_lines(rng, &t, n, &dc) }).collect();
     if rng.chance(1, 6) { for f in files.iter_mut() { for l in f.iter_mut() { if rng.chance(1, 5) { *l = BAD_LINE.to_owned(); } } } }
     let ecfg = ExprCfg { ill_typed: 0, max_depth: 2, ..Default::default() };
-    let shape = rng.below(4);
+    let shape = if big_joined { 1 + rng.below(2) } else { rng.below(4) };
     let mut joined: Option<Vec<String>> = None;
     let stmt = match shape {
         0 => gen_aggregate(rng, &t.schema, &AggCfg { expr: ecfg.clone(), allow_having: true, ..Default::default() }),
         1 | 2 => {
             let mut s = if shape == 1 { gen_select(rng, &t.schema, &StmtCfg { expr: ecfg.clone(), ..Default::default() }) } else { gen_aggregate(rng, &t.schema, &AggCfg { expr: ecfg.clone(), allow_having: false, ..Default::default() }) };
             let big = rng.chance(1, 3);
-            let un = 1 + rng.below(if big { 46 } else { 30 });
+            // a joined file of thousands of lines (a loader may sample the flag differently far into the file)
+            let un = if big_joined || rng.chance(1, 400) { 2100 + rng.below(2500) } else { 1 + rng.below(if big { 46 } else { 30 }) };
             let mut ulines = std_lines(rng, &t, un, &dc);
             // the loader skips lines that are not valid UTF-8; they are put at any index, preferably where it samples the flag
             if rng.chance(1, 3) { for (i, l) in ulines.iter_mut().enumerate() { if rng.chance(1, 12) || (i % 10 == 0 && rng.chance(1, 2)) { *l = BAD_LINE.to_owned(); } } }
@@ -92,13 +95,18 @@ pub fn gen_case(rng: &mut Rng, kind: &str) -> J {
 }
 
 impl Monitor for C19 {
+    fn exhaustive_note(&self) -> Option<String> { Some("one case with a joined file of more than 2000 lines in every run (sampled interrupt points)".into()) }
+    fn enumerate(&self, _tier: Tier, emit: &mut dyn FnMut(J)) {
+        // a join whose joined file has thousands of lines
+        let mut rng = Rng::new(0x1919);
+        emit(gen_case_opts(&mut rng, "points", true));
+    }
     fn id(&self) -> &'static str { "C19" }
     fn rule(&self) -> &'static str {
         "per generated case (plain / DISTINCT / join fan-out / aggregate statement, 1-3 files): every interrupt point is tried - the flag cleared by the batch_line hook before each main-loop line index, at each joined-file loader line, and by the printer after each record index; oracle: Ok result, total_lines = lines consumed before the clear, output = uninterrupted run over exactly those lines, at most 10 more joined-file lines. Thorough adds a real interrupter thread and SIGINT to the CLI. Non-trivial = interrupt point strictly inside the input; distinct by (case, point) hash"
     }
     fn assumptions(&self) -> Vec<String> { vec!["'consumed' = presented to the query (statistics.total_lines); the reader may have fetched one more line which it discards".into()] }
     fn sizes(&self, tier: Tier) -> Sizes { match tier { Tier::Quick => Sizes { cases: 2_500, min_nontrivial: 3_000 }, Tier::Thorough => Sizes { cases: 60_000, min_nontrivial: 50_000 } } }
-    fn exhaustive_note(&self) -> Option<String> { None }
 
     fn generate(&self, rng: &mut Rng, tier: Tier) -> J {
         if rng.chance(1, 12) {
@@ -188,7 +196,11 @@ fn check_points(setup: &Setup, obs: &mut Obs) -> Verdict {
     // (b) flag cleared while the joined file is loaded
     if let Some(jp) = &setup.joined {
         let jn = std::fs::read(jp).map(|s| s.iter().filter(|b| **b == b'\n').count()).unwrap_or(0);
-        for j in 0..jn {
+        // every loader line is an interrupt point; for files of hundreds of lines a sample: the start, every 97th, the end
+        let points: Vec<usize> = if jn <= 120 { (0..jn).collect() } else { let mut p: Vec<usize> = vec![0, 1, 5, 9, 10, 11, 19, 20, 21, 99, 100, 101]; p.extend((120..jn).step_by(97)); p.extend([jn - 12, jn - 2, jn - 1]); p.sort(); p.dedup(); p };
+        if jn > 120 { obs.hit("joined-file>120-lines"); }
+        if jn > 2000 { obs.hit("joined-file>2000-lines"); }
+        for j in points {
             let after = Rc::new(RefCell::new(0usize));
             let a2 = after.clone();
             set_batch_line(Some(Box::new(move |which, index, running| {
@@ -213,7 +225,9 @@ fn check_points(setup: &Setup, obs: &mut Obs) -> Verdict {
     // (c) flag cleared by the printer after its n-th record (non-aggregates print while reading)
     if !setup.aggregate {
         let nrec = full.printed.iter().filter(|l| !l.is_empty()).count();
-        for n in 1..=nrec {
+        // every record index; for outputs of hundreds of records (fan-out over a big joined file) a sample
+        let record_points: Vec<usize> = if nrec <= 60 { (1..=nrec).collect() } else { let mut p: Vec<usize> = vec![1, 2, 3, 10, 11]; p.extend((12..nrec).step_by(nrec / 12 + 1)); p.extend([nrec - 1, nrec]); p.sort(); p.dedup(); p };
+        for n in record_points {
             let out = run(setup, &setup.files, Arc::new(AtomicBool::new(true)), Some(n), "c");
             obs.evals += 1;
             if n < nrec { obs.sub(crate::rng::mix(&[setup.tag, 3, n as u64])); }
